@@ -158,7 +158,9 @@ class Cli:
     @property
     def version_string(self):
         # Triple quotes would terminate the header string
-        command = " ".join(sys.argv).replace('"""', r'\"\"\"')
+        # Bytes of arguments that are not valid UTF-8 (i.e. file names) come as lone surrogates and can not be written as is
+        command = " ".join(sys.argv).encode("utf-8", "backslashreplace").decode("utf-8")
+        command = command.replace('"""', r'\"\"\"')
         return (
             'r"""\n'
             f'generated by json2python-models v{VERSION} at {datetime.now().ctime()}\n'
